@@ -2,7 +2,7 @@
 # usage: tools/try_mutant_wt.sh <patch.diff> <Cxx> [Cyy ...]
 # like try_mutant.sh but leaves /repo alone: the patch is applied in a scratch worktree of /repo and the
 # checks run with VERIF_REPO pointing at it (used while other work is going on in /repo or /verif).
-P="$1"; shift
+P="$(realpath "$1")"; shift
 W=/tmp/trywt-$$
 git -C /repo worktree add -q --detach "$W" HEAD || exit 2
 git -C "$W" apply "$P" || { echo "patch does not apply"; git -C /repo worktree remove --force "$W"; exit 2; }
